@@ -9,6 +9,7 @@ mod gen;
 mod ops;
 mod ops2;
 mod props;
+mod props2;
 mod refeng;
 
 use std::io::{BufRead, Write};
@@ -77,6 +78,10 @@ fn real_main(args: Vec<String>) -> i32 {
                 "C06" => props::c06(&mut c),
                 "C07" => props::c07(&mut c),
                 "C08" => props::c08(&mut c),
+                "C09" => props2::c09(&mut c),
+                "C10" => props2::c10(&mut c),
+                "C11" => props2::c11(&mut c),
+                "C12" => props2::c12(&mut c),
                 "C18" => props::c18(&mut c),
                 "C19" => props::c19(&mut c),
                 _ => {
